@@ -4,6 +4,7 @@ From Coq Require Import Ascii String List Bool Arith ZArith NArith.
 Import ListNotations.
 From AM Require Import Lib.Bytes Lib.Assoc Model.Tracker Model.ToEvent
   Proofs.TrackerInv Proofs.TrackerSpec Proofs.TrackerLife Proofs.ToEventLemmas.
+From AM Require Import Gen.ToEventSketch Model.ToEventSketch Proofs.ToEventTie.
 
 (* For every login identity l and every coalesced audit event e, the written event has
    type "UserAction" and component "auditd"; its timestamp is the audit record's; its
@@ -125,3 +126,26 @@ Proof.
           [split; [|split]; [cbn; repeat split; auto; intros; try discriminate; auto ..|vm_compute; reflexivity]|]).
   contradiction.
 Qed.
+
+(* ---------- the rendering of the model is the rendering of the source ----------
+   Gen/ToEventSketch.v is REGENERATED on every run by evaluating the AST of the method toAuditEvent of user:
+   event type and component constants, the outcome rule (the switch on ae.Result with its default),
+   where every output field comes from (login subjects / source / target, the audit event's timestamp,
+   session and summary), the metadata extra keys, the guard of process_args, and which of the login's
+   maps are copied and which are shared.  The hand-written [to_event] IS the interpretation of that
+   sketch, for every login identity and every coalesced event. *)
+Theorem C14_render_from_source : forall l e, render_sketch generated_sketch l e = Some (to_event l e).
+Proof. exact to_event_from_source. Qed.
+Print Assumptions C14_render_from_source.
+
+Theorem C14_outcome_rule_from_source : forall r,
+  te_outcome_by (te_outcome_cases generated_sketch) (te_outcome_default generated_sketch) r = outcome_of r.
+Proof. exact outcome_rule_from_source. Qed.
+Print Assumptions C14_outcome_rule_from_source.
+
+(* the subjects map of the written event is a fresh copy; source (its Extra map) and target are the
+   stored login's own: non-mutation of the stored login rests on nobody mutating a written event *)
+Theorem C14_aliasing_from_source :
+  te_subjects_copied generated_sketch = true /\ te_source_copied generated_sketch = false /\ te_target_copied generated_sketch = false.
+Proof. exact generated_aliasing. Qed.
+Print Assumptions C14_aliasing_from_source.
